@@ -90,7 +90,7 @@ def _content_extent(img2d: torch.Tensor, code: int):
 
 def measure(img: torch.Tensor, scene: Scene, scale: float, max_hw):
     """Identify frame and actual geometric scale of one image tensor (..., H, W) in [0,1]."""
-    img2d = img.reshape(-1, img.shape[-2], img.shape[-1]).max(dim=0).values
+    img2d = img.reshape(-1, img.shape[-2], img.shape[-1])[0]   # channel 0 carries the frame code
     code = int(round(float(img2d.max()) * 255.0))
     fr = scene.by_code(code)
     rows, cols = _content_extent(img2d, code)
@@ -104,6 +104,46 @@ def measure(img: torch.Tensor, scene: Scene, scale: float, max_hw):
     if len(scored) > 1 and scored[1][0] - err < 2.0:
         raise StubAmbiguous(f"content extent {rows}x{cols}: candidates {scored[:2]}")
     return fr, a, eff
+
+
+def locate_crop(crop: torch.Tensor, full: torch.Tensor, code: int, crop_hw=None):
+    """Where was `crop` (C,h,w) taken from `full` (C,H,W)?  Top-left corner of the crop in `full`'s
+    pixel coordinates, read from the ramp channels of pixels around the crop's centre, by inverting
+    `full`'s own ramp profile (no assumption about any resize convention).  `None` when the frames
+    carry no ramp or the centre of the crop is not plain image content."""
+    if crop.dim() != 3 or crop.shape[0] < 3 or full.shape[0] < 3:
+        return None
+    c, f = crop.detach().cpu().numpy().astype(np.float64), full.detach().cpu().numpy().astype(np.float64)
+    v = code / 255.0
+    inside = np.abs(f[0] - v) < 1e-4
+    rows = np.where(inside.any(axis=1))[0]
+    cols = np.where(inside.any(axis=0))[0]
+    if len(rows) < 5 or len(cols) < 5:
+        return None
+    r0, c0 = rows[len(rows) // 2], cols[len(cols) // 2]
+    xs = cols[1:-1]
+    ys = rows[1:-1]
+    px, py = f[1, r0, xs], f[2, ys, c0]
+    if not (np.all(np.diff(px) > 0) and np.all(np.diff(py) > 0)):
+        return None
+    h, w = crop_hw if crop_hw is not None else c.shape[-2:]   # the crop proper (without stride padding)
+    h, w = min(h, c.shape[-2]), min(w, c.shape[-1])
+    ests = []
+    for di in (-1, 0, 1):
+        for dj in (-1, 0, 1):
+            i, j = h // 2 + di, w // 2 + dj
+            if not (0 <= i < h and 0 <= j < w) or abs(c[0, i, j] - v) > 1e-4:
+                continue
+            g, b = c[1, i, j], c[2, i, j]
+            if not (px[0] <= g <= px[-1] and py[0] <= b <= py[-1]):
+                continue
+            ests.append((float(np.interp(g, px, xs)) - j, float(np.interp(b, py, ys)) - i))
+    if len(ests) < 3:
+        return None
+    return float(np.median([e[0] for e in ests])), float(np.median([e[1] for e in ests]))
+
+
+CROP_TOL = 0.5   # px: a crop further than this from where `instance_bbox` says is a crop/bbox disagreement
 
 
 class IdealNet(torch.nn.Module):
@@ -136,7 +176,15 @@ class IdealNet(torch.nn.Module):
                 fr, a, eff = measure(ctx["image"][b], self.scene, self.scale, self.max_hw)
                 bbox = ctx["instance_bbox"][b].reshape(4, 2).to(torch.float64)
                 tl = bbox[0]
-                centre = bbox.mean(dim=0)
+                tl_bbox = (float(tl[0]), float(tl[1]))
+                # the crop the network ACTUALLY receives: located from its pixels; `instance_bbox` is
+                # only used (for its exact sub-pixel value) when the pixels agree with it
+                crop_hw = (int(round(float(bbox[3, 1] - bbox[0, 1]))) + 1, int(round(float(bbox[1, 0] - bbox[0, 0]))) + 1)
+                tl_px = locate_crop(x[b], ctx["image"][b], fr.code, crop_hw)
+                mismatch = tl_px is not None and max(abs(tl_px[0] - tl_bbox[0]), abs(tl_px[1] - tl_bbox[1])) > CROP_TOL
+                if mismatch:
+                    tl = torch.tensor(tl_px, dtype=torch.float64)
+                centre = bbox.mean(dim=0)   # which detection the crop belongs to: always the bbox's
                 if not fr.animals:
                     raise StubError("crop from a frame without animals")
                 d = [max(abs(an.centroid[0] * a - float(centre[0])), abs(an.centroid[1] * a - float(centre[1])))
@@ -148,7 +196,8 @@ class IdealNet(torch.nn.Module):
                 cm = generate_confmaps(pts.unsqueeze(0), img_hw=(Hin, Win), sigma=self.sigma,
                                        output_stride=self.os)
                 entries.append({"code": fr.code, "a": a, "eff": eff, "animal": k,
-                                "tl": (float(tl[0]), float(tl[1])), "hw": (Hin, Win)})
+                                "tl": (float(tl[0]), float(tl[1])), "hw": (Hin, Win),
+                                "tl_bbox": tl_bbox, "tl_px": tl_px, "tl_mismatch": bool(mismatch)})
             else:
                 fr, a, eff = measure(x[b], self.scene, self.scale, self.max_hw)
                 if self.kind == "single":
@@ -225,20 +274,33 @@ def _mem_video_cls():
     return _MEM_VIDEO
 
 
-def make_video(frames: list, name="mem.mp4"):
-    """`sio.Video` over constant-intensity frames (all of one size)."""
+RAMP0 = 40  # channel 1 = RAMP0 + x, channel 2 = RAMP0 + y of "ramp" videos
+
+
+def make_video(frames: list, name="mem.mp4", ramp=False):
+    """`sio.Video` over synthetic frames (all of one size).  Default: one channel of constant
+    intensity = the frame's code.  `ramp=True`: three channels — the code, `RAMP0 + x`, `RAMP0 + y` —
+    so that a stub can tell from the pixels of a crop WHERE in the frame the crop was taken
+    (linear ramps survive bilinear/antialiased resizing and `crop_and_resize` exactly)."""
     import sleap_io as sio
     global _ARRAY_BACKEND
     if _ARRAY_BACKEND is None:
         _ARRAY_BACKEND = _backend_cls()
     H, W = frames[0].H, frames[0].W
     assert all(f.H == H and f.W == W for f in frames)
+    if ramp:
+        assert RAMP0 + max(H, W) <= 255
+        xs = np.broadcast_to(RAMP0 + np.arange(W)[None, :], (H, W))
+        ys = np.broadcast_to(RAMP0 + np.arange(H)[:, None], (H, W))
+        arr = np.stack([np.stack([np.full((H, W), f.code), xs, ys], axis=-1).astype(np.uint8) for f in frames])
+        be = _ARRAY_BACKEND(filename=name, grayscale=False, keep_open=True, arr=arr)
+        return _mem_video_cls()(filename=name, backend=be, open_backend=False)
     arr = np.stack([np.full((H, W, 1), f.code, dtype=np.uint8) for f in frames])
     be = _ARRAY_BACKEND(filename=name, grayscale=True, keep_open=True, arr=arr)
     return _mem_video_cls()(filename=name, backend=be, open_backend=False)
 
 
-def make_labels(videos: list, node_names=None, order=None):
+def make_labels(videos: list, node_names=None, order=None, ramp=False):
     """`sio.Labels` with one LabeledFrame per FrameSpec; `videos` = list of lists of FrameSpec
     (frame k of video v is `videos[v][k]`).  `order` = optional list of (video, frame) pairs: which
     labeled frames exist and in which order the reader will meet them (default: all, video-major).
@@ -247,7 +309,7 @@ def make_labels(videos: list, node_names=None, order=None):
     n_nodes = max([len(a.pts) for v in videos for f in v for a in f.animals] + [len(node_names or [])] + [1])
     node_names = node_names or [f"n{i}" for i in range(n_nodes)]
     skel = sio.Skeleton(nodes=[sio.Node(n) for n in node_names])
-    vids = [make_video(frs, name=f"mem{vi}.mp4") for vi, frs in enumerate(videos)]
+    vids = [make_video(frs, name=f"mem{vi}.mp4", ramp=ramp) for vi, frs in enumerate(videos)]
     if order is None:
         order = [(vi, k) for vi, frs in enumerate(videos) for k in range(len(frs))]
     lfs = []
@@ -313,15 +375,16 @@ def build_single(scene, skeletons, *, scale, os_, max_stride, max_hw, batch_size
 
 
 def build_topdown(scene, skeletons, *, sc, os_c, ms_c, si, os_i, ms_i, crop_hw, max_hw, batch_size,
-                  refinement, max_instances=None, threshold=0.2, sigma=1.5):
+                  refinement, max_instances=None, threshold=0.2, sigma=1.5, is_rgb=False):
     """REAL TopDownPredictor (CentroidCrop + FindInstancePeaks + TopDownInferenceModel) around two
     ideal-network stubs; the crop-stage stub is attached to the real FindInstancePeaks by a
     forward-pre-hook."""
     from sleap_nn.inference.predictors import TopDownPredictor
     ccfg = mk_config("centroid", scale=sc, max_stride=ms_c, output_stride=os_c,
-                     max_height=max_hw[0], max_width=max_hw[1], crop_hw=None, sigma=sigma)
+                     max_height=max_hw[0], max_width=max_hw[1], crop_hw=None, sigma=sigma, is_rgb=is_rgb)
     icfg = mk_config("centered_instance", scale=si, max_stride=ms_i, output_stride=os_i,
-                     max_height=max_hw[0], max_width=max_hw[1], crop_hw=list(crop_hw), sigma=sigma)
+                     max_height=max_hw[0], max_width=max_hw[1], crop_hw=list(crop_hw), sigma=sigma,
+                     is_rgb=is_rgb)
     cnet = _wrap_keep(IdealNet(scene, "centroid", os_c, sigma=sigma, scale=sc, max_hw=max_hw))
     inet = _wrap_keep(IdealNet(scene, "centered", os_i, sigma=sigma, scale=si, max_hw=max_hw))
     p = TopDownPredictor(centroid_config=ccfg, confmap_config=icfg, centroid_model=cnet, confmap_model=inet,
